@@ -10,7 +10,7 @@ CHECKS = {
         technique="what the library BUILDS for every structure with both directions is parsed by TLC with the T10Data.tla "
                   "parsers and compared with the values (Trace_Data Marshal events); parse-of-build and build-of-parse "
                   "are compared on those TLC-accepted byte strings; read-modify-write of every mode page field through the "
-                  "facade is judged the same way",
+                  "facade is judged the same way; a Rebuild event lets TLC parse the device's response and what the library rebuilt from it and demand the same values",
         text="15 structures (standard INQUIRY, VPD 80/83/86/B2/B3 with all designator kinds, mode parameter lists 6/10, READ "
              "CAPACITY 10/16, GET LBA STATUS, REPORT LUNS, RTPG both headers, READ ELEMENT STATUS, TransportIDs): build "
              "places every value where the standard says, lengths honest, parse(build(v)) = v, build(parse(b)) = b; "
@@ -22,7 +22,7 @@ CHECKS = {
     "C05": dict(
         technique="data-out parameter lists transcribed into TLA+ as parsers with exact-length predicates (T10Data.tla "
                   "ParseOut/Exact); every list the library composes from a random valid dictionary is parsed by TLC and "
-                  "compared with the input (Trace_Data Marshal events); the CDB is judged by Trace_Command",
+                  "compared with the input (Trace_Data Marshal events); the CDB is judged by Trace_Command; reserved / obsolete bits of the lists are must-be-zero facts; one caller dictionary passed to marshall_dataout repeatedly with entries changed in between",
         text="MODE SELECT(6)/(10) lists with 0-3 pages of four kinds, PR OUT basic / SPEC_I_PT with 0-3 TransportIDs / "
              "REGISTER AND MOVE, five TransportID kinds with iSCSI name lengths across the padding boundaries and ISIDs, "
              "EXTENDED COPY LID1/LID4 with E4h CSCD descriptors, six segment types and inline data: value placement, "
@@ -35,7 +35,7 @@ CHECKS = {
                   "the spec's own codec; random histories through the facade over both transports against a live target are "
                   "replayed by TLC's target from the received CDBs (Trace_Target); behaviours of the "
                   "composition Initiator.tla (I/O + injected CHECK CONDITION/BUSY + node replacement/removal + re-attach), "
-                  "exhaustive to 5 steps and by TLC -simulate to 24 steps, replayed step by step on the real facade",
+                  "exhaustive to 5 steps and by TLC -simulate to 24 steps, replayed step by step on the real facade; Initiator.tla arms every status SAM names and has the caller's re-encoded long-lived read object as an action; histories re-issue kept READ CAPACITY / INQUIRY objects after the target changed (resize events)",
         text="Every I/O event carries the caller's arguments and data, the CDB and data-out the binding received, what "
              "the target returned and what the caller sees; TLC checks target-recovers-arguments, write data reaches the "
              "target, reads return what was last written at the LBAs the caller named (LBAs around 0, 2^32, 2^64), "
@@ -47,7 +47,7 @@ CHECKS = {
         technique="facade call state machine (Facade.tla) model-checked by TLC; every facade method x command set x subset "
                   "of optional keyword arguments executed with a recording device that fills the data-in buffer; judged by "
                   "Trace_Facade (exactly once, same buffers), Trace_Command (arguments and defaults in the CDB, opcode of "
-                  "the attached set) and Trace_Data (result = parse of what the device wrote)",
+                  "the attached set) and Trace_Data (result = parse of what the device wrote); byte-identical device answers decoded under different arguments, repeated calls after the caller edited the result, other device types asking first for commands found by operation code",
         text="36 facade methods (4 PR IN service actions) on every set offering the command, every subset of optional "
              "keywords (sampled above 24/300), device-provided contents from the C04 generators.",
         note="modeselect6/10, persistentreserveout, extendedcopy4/5 are driven by C05. Argument names = constructor "
@@ -56,7 +56,7 @@ CHECKS = {
     "C16": dict(
         technique="attach / re-attach state machine (Attach.tla) model-checked by TLC; all 32 types x 8 qualifiers and "
                   "attach sequences executed on real SCSIDevice/ISCSIDevice over stand-in bindings; every attach validated "
-                  "by the stateful Trace_Attach",
+                  "by the stateful Trace_Attach; after every attach, probes of the commands the facade finds by operation code (9Eh / A3h) judged by AttachRules!Offers",
         text="One standard INQUIRY per attach, TypeSelectsSet for the named types, primary commands always offered, "
              "selection for unnamed types independent of attach history, other devices untouched.",
         note="Types 02h/09h (mapped to SSC by the library) only need the primary commands.",
@@ -64,7 +64,7 @@ CHECKS = {
     "C04": dict(
         technique="parameter-data formats transcribed into TLA+ as parsers with well-formedness predicates (T10Data.tla); "
                   "every decoder call on generated responses is an event; TLC re-derives the expected values from the "
-                  "bytes and judges the library's flattened result (Trace_Data)",
+                  "bytes and judges the library's flattened result (Trace_Data); ATA Information VPD page and iSCSI names of TransportIDs included; a second observation point (one long-lived command per format, buffer re-filled in place, cmd.unmarshall()) is judged the same way",
         text="25 response formats (standard INQUIRY, VPD 00/80/83 with all designator kinds/86/B0/B1/B2/B3, MODE SENSE "
              "6/10 with four page kinds, READ CAPACITY 10/16, GET LBA STATUS, REPORT LUNS, RTPG both headers, REPORT "
              "PRIORITY, READ ELEMENT STATUS, PR IN x4 with TransportIDs, READ DISC INFORMATION x3): random/boundary field "
@@ -97,7 +97,7 @@ CHECKS = {
     "C18": dict(
         technique="EnumSM.tla (ordered partial maps + dictionary model, two enumerations) model-checked by TLC; all "
                   "operation sequences to a depth and random long histories on real Enum objects validated step by step "
-                  "by Trace_EnumSM",
+                  "by Trace_EnumSM; enumerations also created as OpCode service-action tables; falsy values",
         text="Agreement with a dictionary, reverse-lookup soundness (first supplied name, equal-but-distinct values), "
              "refusals changing nothing and no cross-talk are invariants/action properties of the spec; the real class is "
              "driven through every sequence up to length 3 (4) for six value kinds incl. nested dicts and OpCode objects, "
@@ -108,7 +108,7 @@ CHECKS = {
     "C09": dict(
         technique="object-level behaviours of Command.tla (construct/probe/discard over live objects, action property "
                   "Isolation) instantiated with all ordered class pairs; thread schedules enumerated by TLC from Sched.tla "
-                  "(preemption-bounded, line granularity) and executed by a settrace scheduler on real threads",
+                  "(preemption-bounded, line granularity) and executed by a settrace scheduler on real threads; the parameter-data codecs of other commands as disturbers fed the victims' own field values; every class's reference CDB decoded by every other class of equal length (expected by T10Cdb!DictDecode); first use in a pristine process (before / after creating an instance); same class in both threads",
         text="After every action of every exported behaviour each live object's CDB/buffers and the probed class's "
              "decode/re-encode are compared with the class's isolated reference (itself validated by TLC against "
              "T10Cdb.tla). All 42x42 ordered pairs on the canonical sequences, every behaviour on 10 representative "
@@ -121,7 +121,7 @@ CHECKS = {
         technique="transport state machine (Transport.tla: target completes -> binding reports -> library maps, command "
                   "objects re-executed) model-checked by TLC; every (history, status 0..255, sense, raw flag) case replayed "
                   "on real SCSIDevice/ISCSIDevice over stand-in bindings and through three facade routes; random fault "
-                  "sequences judged by Trace_Transport",
+                  "sequences judged by Trace_Transport; truncated sense buffers among the sense identifiers; every CheckCondition raised is held and re-inspected at the end",
         text="TLC checks NoSilentFailure, SenseFaithful, NamedStatusNamedError, GoodReturns on the design for all "
              "histories of two re-usable command objects; the exported cases drive the real devices with all 256 status "
              "values, four sense kinds, stale-sense histories, raw on/off, direct and facade routes.",
@@ -131,7 +131,7 @@ CHECKS = {
     "C15": dict(
         technique="finite handle/node state machine (Handle.tla) model-checked exhaustively by TLC (unbounded histories); "
                   "all action sequences up to a depth plus random long ones executed on a real SCSIDevice over tmpfs "
-                  "nodes and validated step by step by Trace_Handle",
+                  "nodes and validated step by step by Trace_Handle; three ways of creating a device with detection on (flag, default, init_device)",
         text="Every history over {execute, replug, unplug, plug, close-failure, close, with-exit normal/exception} up to "
              "length 4 (thorough 6) for detection on/off and ro/rw is run against the real class with real inodes; each "
              "observed step (outcome, handle used vs node at path, live OS handles) must be a successor the spec allows.",
@@ -141,7 +141,7 @@ CHECKS = {
     "C19": dict(
         technique="Bindings.tla (prefix rules on character sequences, refusal before open/connect) model-checked by TLC; "
                   "one interpreter per binding configuration records imports / codec probes / init_device calls; events "
-                  "judged by Trace_Bindings",
+                  "judged by Trace_Bindings; device classes constructed directly as routes of their own (ExpectVia); file-system accesses during a refusal counted",
         text="Exhaustive over 4 configurations x every module x 16 device strings x ro/rw x default/explicit initiator.",
         note="Absent binding = meta-path blocker; present = stand-in modules; open() observed by shadowing the builtin in "
              "the device module.",
@@ -149,7 +149,7 @@ CHECKS = {
     "C01": dict(
         technique="T10 CDB layouts transcribed into TLA+ (T10Cdb.tla); TLC enumerates the star+flags argument space "
                   "with the transcription's laws as invariants (MC_T10Cdb) and exports predicted CDBs replayed into the "
-                  "42 constructors on every command set; recorded random constructions judged by TLC (Trace_Command)",
+                  "42 constructors on every command set; recorded random constructions judged by TLC (Trace_Command); a sample of the exported cases of every class is executed on both transports over the stand-in bindings (after a failed construction, and again after the command was re-aimed) and the bytes the binding received are compared with the specification's CDB",
         text="Every field of every class is driven through 0, max, every single bit and max-minus-bit over three "
              "backgrounds plus all flag combinations, on each command set offering the class, and the bytes are compared "
              "with an independent T10-notation oracle whose own consistency (disjoint fields, group length, "
@@ -159,7 +159,7 @@ CHECKS = {
         ref="6 C01"),
     "C02": dict(
         technique="dictionary-level DictEncode/DictDecode of T10Cdb.tla checked for inverse-ness by TLC on every case; "
-                  "cases replayed into marshall_cdb/unmarshall_cdb; random joint assignments judged by Trace_Command",
+                  "cases replayed into marshall_cdb/unmarshall_cdb; random joint assignments judged by Trace_Command; the constructor route: unmarshall_cdb of the constructed CDB gives the case's dictionary and a second build_cdb on the same object gives the same bytes",
         text="For all 42 classes every exported case is encoded from its dictionary and decoded back through the real "
              "static codecs and compared with the spec's prediction; joint all-max / alternating / random assignments "
              "to all fields simultaneously are recorded and validated by TLC.",
@@ -168,7 +168,7 @@ CHECKS = {
         ref="6 C02"),
     "C03": dict(
         technique="data-phase rules (allocation length, tl x block size, SAT transfer rules) in T10Cdb.tla; predicted "
-                  "buffer lengths from MC_T10Cdb compared on real command objects; recorded constructions judged by TLC",
+                  "buffer lengths from MC_T10Cdb compared on real command objects; recorded constructions judged by TLC; every constructed case is re-aimed (cmd.cdb = cmd.build_cdb(...)) and recorded again; NDOB with caller data",
         text="len(datain), len(dataout), buffer types and caller's-data identity checked for every constructible "
              "case of the 42 classes incl. all 4x2x2x2 ATA modes x lengths x block sizes.",
         note="READ CD is judged with an at-least rule; T_LENGTH=3 uses the caller's extra_tl. Transport-level "
@@ -176,7 +176,7 @@ CHECKS = {
         ref="6 C03"),
     "C14": dict(
         technique="T10 opcode/service-action/status tables in TLA+ (T10Opcodes.tla), self-consistency by TLC "
-                  "(MC_Opcodes); library tables walked exhaustively and judged by a stateful TLC trace spec",
+                  "(MC_Opcodes); library tables walked exhaustively and judged by a stateful TLC trace spec; CDB length through marshall_cdb on one class for all 256 codes in four orders",
         text="Exhaustive: every entry of the five tables, every service-action entry, every status and all 256 opcode "
              "values for the CDB length rule; SameNameSameValue is judged over the whole walk for all names.",
         note="Values transcribed from memory and cross-read against scsi/scsi.h and linux/cdrom.h; names unknown to "
@@ -193,7 +193,7 @@ CHECKS = {
         ref="6 C17"),
     "C10": dict(
         technique="TLA+ state machine of the codec (MC_Bits) model-checked by TLC; its terminal states replayed into "
-                  "encode_dict/decode_bits; recorded calls judged by TLC against Bits.tla (Trace_Bits)",
+                  "encode_dict/decode_bits; recorded calls judged by TLC against Bits.tla (Trace_Bits); masks spanning further bytes after the field; returned bytearrays mutated by the caller and the call repeated",
         text="TLC checks the codec laws (read-back, locality, order independence, int<->bytes) on an explicit TLA+ "
              "model for every layout of 1-3 disjoint fields in a small buffer and all write orders; every terminal "
              "state is replayed into the real functions, and recorded calls with wide/unaligned/random layouts are "
